@@ -72,13 +72,20 @@ def may_raise(ctx, eff, func, concrete, call, target, _memo={}):
 
 
 def entry_loops(func):
-    """For-loops over directory entries: the iterable derives from listdir()/self.files."""
+    """Loops over directory entries (for statements and comprehensions): the iterable
+    derives from listdir()/self.files."""
     loops = []
     for n in ast.walk(func.node):
         if isinstance(n, ast.For):
             text = expand(n.iter, func)
             if "listdir(" in text or "self.files" in text or "dirfiles" in text:
                 loops.append(n)
+        elif isinstance(n, (ast.ListComp, ast.SetComp, ast.GeneratorExp, ast.DictComp)):
+            for g in n.generators:
+                text = expand(g.iter, func)
+                if "listdir(" in text or "self.files" in text or "dirfiles" in text:
+                    loops.append(n)
+                    break
     return loops
 
 
@@ -101,8 +108,15 @@ def check(ctx, rep):
                     rep.analysed(m.qualname)
                     for call, t in eff.calls_of(m, C):
                         # calls inside this loop's body
-                        if not any(anc is loop and field == "body" for anc, field in enclosing(m.node, call)):
-                            continue
+                        if isinstance(loop, ast.For):
+                            if not any(anc is loop and field == "body" for anc, field in enclosing(m.node, call)):
+                                continue
+                        else:
+                            inner = [loop.elt] if hasattr(loop, "elt") else [loop.key, loop.value]
+                            for g in loop.generators:
+                                inner.extend(g.ifs)
+                            if not any(x is call for e in inner for x in ast.walk(e)):
+                                continue
                         excs = may_raise(ctx, eff, m, C, call, t)
                         if not excs:
                             continue
